@@ -84,7 +84,9 @@ def _unit_text(kind, unit):
     return {"latex": latex_of_unit, "unicode": unicode_of_unit, "html": html_of_unit}[kind](unit)
 
 
-DEFAULT_OPT = {"api": "number", "impl": False, "fsty": "g", "xty": "float", "uname": "", "ucv": {"from": "", "to": ""}}
+DEFAULT_OPT = {"api": "number", "impl": False, "fsty": "g", "xty": "float", "uname": "", "ucv": {"from": "", "to": ""},
+               "tbl": ""}
+TABLE_KEYS = ["H2O", "H+", "OH-"]      # substances of the per-substance table (rows in this order)
 
 
 def _typed(x, xty):
@@ -144,6 +146,8 @@ def _expected_unit_text(fn, printer, unit):
     """What the unit renders to on its own in the presentation at hand."""
     if unit is None or fn == "uncert_plain":
         return ""
+    if fn == "table":
+        return _unit_text("html", unit)
     if printer in ("string", "html"):
         return str(unit.dimensionality)
     if printer == "unicode":
@@ -175,6 +179,9 @@ def _call(spec, evout):
     given = _unit(fname) if fname else unit      # the unit the input is expressed in
     src = spec.get("src", "arg")
     xv = _typed(x, opt["xty"])
+    if opt["xty"] == "uq":
+        # a quantity carrying an uncertainty (one percent of the value); needs its unit
+        xv = _pq().UncertainQuantity(x, unit, abs(x) * 0.01)
     printer = {"plain": "string", "rxn-unicode": "unicode", "rxn-latex": "latex", "rxn-html": "html"}.get(
         fn, spec.get("printer") if fn == "arrh" else None)
     utext = _expected_unit_text(fn, printer, unit)
@@ -193,7 +200,7 @@ def _call(spec, evout):
             which = spec["which"]
             printer = spec["printer"]
         else:
-            param = xv * unit if unit is not None else xv
+            param = xv if opt["xty"] == "uq" else (xv * unit if unit is not None else xv)
             printer = {"plain": "string", "rxn-unicode": "unicode", "rxn-latex": "latex", "rxn-html": "html"}[fn]
         r = Reaction({"A": 1}, {"B": 1}, param, checks=())
         utext = ""
@@ -224,6 +231,29 @@ def _call(spec, evout):
             if unit is not None:
                 utext = str(unit.dimensionality)
         txt = s.split(sep, 1)[1] if sep in s else s
+    elif fn == "table":
+        # as_per_substance_html_table: one row per substance, the number given FOR THAT substance
+        from collections import OrderedDict
+        from chempy import Substance
+        from chempy.printing.table import as_per_substance_html_table
+        substances = OrderedDict((k, Substance.from_formula(k)) for k in TABLE_KEYS)
+        vals = [(_typed(v, opt["xty"]) * unit if unit is not None else _typed(v, opt["xty"])) for v in spec["tvals"]]
+        pairs = list(zip(TABLE_KEYS, vals))
+        perm = opt["tbl"]
+        if perm == "reversed":
+            pairs = pairs[::-1]
+        elif perm == "rotated":
+            pairs = pairs[1:] + pairs[:1]
+        elif perm == "extra":
+            pairs = [("Na+", vals[1] * 3)] + pairs[::-1] + [("Cl-", vals[0] * 5)]
+        cont = [v for k, v in pairs] if perm == "list" else OrderedDict(pairs)
+        tab = as_per_substance_html_table(cont, substances)
+        row = tab.rows[spec["row"]]
+        label, txt = row[0], row[1]
+        if len(tab.rows) != len(TABLE_KEYS) or label != substances[TABLE_KEYS[spec["row"]]].html_name:
+            txt = "row-of-another-substance: %r" % (row,)      # equals no number: TLC rejects it
+        utext = _unit_text("html", unit) if unit is not None else ""
+        lexkind = "html"
     elif fn == "uncert_plain":
         from chempy.printing.numbers import _float_str_w_uncert
         txt = _float_str_w_uncert(xv, spec["xe"]) if opt["impl"] else _float_str_w_uncert(xv, spec["xe"], spec["p"])
@@ -364,7 +394,15 @@ def seeded_specs(rng, n):
         elif u < 0.6:
             out.append({"fn": rng.choice(["rxn-unicode", "rxn-latex", "rxn-html"]), "x": x, "n": 5,
                         "unit": "" if frm else unit, "opt": dict(DEFAULT_OPT, impl=True)})
-        elif u < 0.63:
+        elif u < 0.615:
+            tu = rng.choice(["", "M", "1/s"])
+            topt = dict(DEFAULT_OPT, api="table", impl=True, tbl=rng.choice(["same", "reversed", "rotated", "extra", "list"]),
+                        uname=tu)
+            out += _table_specs({"opt": topt, "unit": tu, "from": "", "n": 5}, x, len(out))
+        elif u < 0.63 and unit:
+            uopt = dict(DEFAULT_OPT, api="rxnstring", impl=True, xty="uq", uname=unit)
+            out.append({"fn": "plain", "x": x, "n": 3, "unit": unit, "opt": uopt})
+        elif u < 0.64:
             # a rate expression as parameter: both numbers of an Arrhenius expression must be shown
             A, Ea = abs(x), abs(_rand_value(rng))
             if not (1e-290 < Ea < 1e290):
@@ -407,8 +445,17 @@ def _opt_of(i):
     o = i.get("opt") or {}
     ucv = o.get("ucv") or {}
     return {"api": o.get("api", "number"), "impl": bool(o.get("impl", False)), "fsty": o.get("fsty", "g"),
-            "xty": o.get("xty", "float"), "uname": o.get("uname", ""),
+            "xty": o.get("xty", "float"), "uname": o.get("uname", ""), "tbl": o.get("tbl", ""),
             "ucv": {"from": ucv.get("from", ""), "to": ucv.get("to", "")}}
+
+
+def _table_specs(base, x, idx):
+    """The value of the case sits in one row (rotating), two other values in the other rows; every row
+    is judged against the value given for ITS substance."""
+    j = idx % len(TABLE_KEYS)
+    tvals = [x * 7.25, x / 3.5, x * 1.75]
+    tvals[j] = x
+    return [dict(base, fn="table", row=r, tvals=list(tvals), x=tvals[r], primary=(r == j)) for r in range(len(TABLE_KEYS))]
 
 
 def case_specs(case, idx):
@@ -424,6 +471,10 @@ def case_specs(case, idx):
         base["n"] = i["n"]
         if opt["api"] == "rxnstring":
             return [dict(base, fn="plain")]
+        if opt["api"] == "table":
+            return _table_specs(base, x, idx)
+        if opt["xty"] == "uq":
+            return [dict(base, fn=k) for k in ("rxn-unicode", "rxn-latex", "rxn-html")]
         kinds = list(KINDS)
         if opt == DEFAULT_OPT and not cv["from"] and i["n"] == 3:
             kinds.append("plain")
@@ -525,7 +576,8 @@ NEED = {
     "uncert": ["unc-plain", "unc-exp", "-carry", "-ucarry", "-int"],
     "roman": ["roman"],
     "conv": ["-conv", "-attr", "-arg", "num-", "unc-", "-ratio"],
-    "opts": ["-impl", "-e", "-int", "-npfloat", "-nparray", "-npint", "-rxnstring", "-ucv", "roman", "-conv", "-ratio"],
+    "opts": ["-impl", "-e", "-int", "-npfloat", "-nparray", "-npint", "-rxnstring", "-ucv", "roman", "-conv", "-ratio", "-uq",
+             "-table-same", "-table-reversed", "-table-rotated", "-table-extra", "-table-list"],
 }
 
 
@@ -575,7 +627,7 @@ def run(ctx):
         ctx.cases_replayed += len(sel)
         for sp, o, ci in zip(specs, outs, owner):
             c = sel[ci]
-            if "exc" not in o and c["in"]["mode"] == "number":
+            if "exc" not in o and c["in"]["mode"] == "number" and sp.get("primary", True):
                 # spec -> code: exact comparison with the roundings TLC lists for the case
                 obs = o["trace"][-1]["obs"]
                 ok = obs["lexed"] and _denoted(obs) in c["exp"]["allowed"] and (not obs["omitted"] or c["exp"]["omit_ok"])
